@@ -804,11 +804,41 @@ func ruleConstCacheFloat(c *Ctx, rule string) {
 			default:
 				return
 			}
-			u, ok := m.(*ssa.UnOp)
-			if !ok {
-				return
+			// the cache: a load of the Compiler field, or a map that is stored
+			// into that field (the cache a new compiler is built with)
+			isCache := false
+			if u, ok := m.(*ssa.UnOp); ok {
+				if _, ok := isFieldAddrOf(u.X, modPath, "Compiler", fCache); ok {
+					isCache = true
+				}
 			}
-			if _, ok := isFieldAddrOf(u.X, modPath, "Compiler", fCache); !ok {
+			if !isCache {
+				seen := map[ssa.Value]bool{}
+				var flows func(v ssa.Value, d int) bool
+				flows = func(v ssa.Value, d int) bool {
+					if seen[v] || d > 4 || v.Referrers() == nil {
+						return false
+					}
+					seen[v] = true
+					for _, r := range *v.Referrers() {
+						switch x := r.(type) {
+						case *ssa.Store:
+							if x.Val == v {
+								if _, ok := isFieldAddrOf(x.Addr, modPath, "Compiler", fCache); ok {
+									return true
+								}
+							}
+						case *ssa.Phi:
+							if flows(x, d+1) {
+								return true
+							}
+						}
+					}
+					return false
+				}
+				isCache = flows(m, 0)
+			}
+			if !isCache {
 				return
 			}
 			// may the key be a Float here?  it is an interface value: unless the
